@@ -170,8 +170,9 @@ func (node *ASCIINode) String() string {
 	var sb strings.Builder
 	printableState := false
 	for _, ch := range node.value {
-		if ch < 32 || ch == 127 {
-			// ch is a non-printable control character
+		if ch < 32 || ch == 127 || ch == '"' {
+			// ch is a non-printable control character, or the double quote,
+			// which cannot appear inside a quoted string
 			// 32: space, which is the first printable character, 127: del
 			if printableState {
 				printableState = false
